@@ -677,7 +677,8 @@ fn configure_build(
                         imported_build_deps.extend(dep_files.iter().cloned());
                     }
                 }
-                Some(imported_build_deps)
+                // no files at all: same as having no build dependencies
+                (!imported_build_deps.is_empty()).then_some(imported_build_deps)
             } else {
                 None
             }
